@@ -44,6 +44,7 @@ CODES = {1: "model differs from implementation at FontInfo::validate",
          17: "Font::load (format 1 lib data) verdict differs from the specification",
          18: "the font loaded from format 2 holds an info that violates the specification",
          19: "the font loaded from format 1 holds an info that violates the specification",
+         20: "an entry point PANICKED on this font info (neither accepted nor refused; also a C03 violation)",
          11: "FontInfo::validate verdict differs from the specification",
          12: "Font::save verdict differs from the specification",
          13: "Font::load verdict differs from the specification",
@@ -322,7 +323,8 @@ def run(ctx, known, built):
                 "loader (when only the PostScript lists are used), and through the Coq model; verdict, error kind with payload, and the resulting info (validated / read back "
                 "from the written file as an untyped plist / loaded) are compared. Boundary-exhaustive part: every list "
                 "length 0..16 for the six PostScript lists; three valid dates x 19 positions x 14 bytes, multi-byte "
-                "characters, every date field at and around its bounds and their products, length variations; all 256 "
+                "characters (numeric and not, 2/3/4 UTF-8 bytes) at every position both byte-length-preserving (19 bytes, "
+                "char boundaries inside the slices) and char-count-preserving, every date field at and around its bounds and their products, length variations; all 256 "
                 "subsets of selection bits 0..7; class ids 0..17 x 0..17; all gasp lists of length <= 4 over three ppem "
                 "values; 17 angles incl. -eps, +-0, 360, 360+ulp, NaN, inf; all guideline sequences of length <= 3 over a "
                 "7-letter alphabet mixing bad angles and duplicate identifiers; WOFF structures with each list/record "
